@@ -102,6 +102,26 @@ func Pair(k *run.K, domain string, a, b geom.Geometry) (float64, bool, bool) {
 	} else {
 		k.Check("intersection-empty", inter.IsEmpty() == !want, "Intersection(a,b) empty=%v but exact intersects=%v (%s)", inter.IsEmpty(), want, inter.AsText())
 	}
+	// both answers are functions of the point sets in the plane: independent Z/M values at every control point
+	// (different at coinciding XY locations) of either operand must not change them
+	if k.Index%2 == 0 {
+		az, bz := a, b
+		if k.Rng.Intn(3) > 0 {
+			az = shared.Payload(k.Rng, a, shared.PayloadCT(k.Rng))
+		}
+		if k.Rng.Intn(3) > 0 || az.CoordinatesType() == geom.DimXY {
+			bz = shared.Payload(k.Rng, b, shared.PayloadCT(k.Rng))
+		}
+		var gz, gzR, okz bool
+		var dz float64
+		if !k.Lib("nopanic", func() {
+			gz, gzR = geom.Intersects(az, bz), geom.Intersects(bz, az)
+			dz, okz = geom.Distance(az, bz)
+		}) {
+			k.Check("payload-blind", gz == want && gzR == want && okz == ok1 && math.Float64bits(dz) == math.Float64bits(d1),
+				"with a Z/M payload Intersects=%v/%v (exact %v), Distance=%v,%v (without payload %v,%v)\n a=%s\n b=%s", gz, gzR, want, dz, okz, d1, ok1, az.AsText(), bz.AsText())
+		}
+	}
 	defined := !a.IsEmpty() && !b.IsEmpty()
 	k.Check("dist-defined", ok1 == defined && ok2 == defined, "Distance defined=%v/%v, operands empty=%v/%v", ok1, ok2, a.IsEmpty(), b.IsEmpty())
 	k.Check("dist-sym", math.Float64bits(d1) == math.Float64bits(d2) && ok1 == ok2, "Distance(a,b)=%v but Distance(b,a)=%v", d1, d2)
